@@ -282,9 +282,34 @@ fn part_newgame(bytes: &[u8], stats: &mut Stats) -> Verdict {
             }
         }
     }
+    let mut shuffle_again = false;
+    if mode == 2 && s.chance(55) {
+        // the new game is the old shuffle game again, word for word or extended by a cycle move: a
+        // history with repeated positions given a second time, after ucinewgame
+        if let Some(r) = prefix_rounds.iter().find(|r| r.pos.is_none()) {
+            if let Some(pl) = r.lines.iter().find(|l| l.starts_with("position")) {
+                let mut pl = pl.clone();
+                if s.chance(40) {
+                    // continue the shuffle by the move that undoes the last one of the same side
+                    let toks: Vec<&str> = pl.split_whitespace().collect();
+                    if toks.len() >= 6 {
+                        let m = toks[toks.len() - 2];
+                        if m.len() == 4 {
+                            let back = format!("{}{}", &m[2..4], &m[0..2]);
+                            pl = format!("{} {}", pl, back);
+                        }
+                    }
+                }
+                if script::ref_position(&pl).is_ok() {
+                    suffix_rounds.insert(0, Round { lines: vec![pl, format!("go depth {}", 1 + s.below(4))], same_game_as_previous: false, pos: None });
+                    shuffle_again = true;
+                }
+            }
+        }
+    }
     // sometimes the suffix starts with a go on whatever ucinewgame left (the start position)
     let mut suffix: Vec<String> = suffix_rounds.iter().flat_map(|r| r.lines.iter().cloned()).collect();
-    let bare_go = if mode == 2 { s.chance(85) } else { s.chance(15) };
+    let bare_go = if shuffle_again { s.chance(20) } else if mode == 2 { s.chance(85) } else { s.chance(15) };
     if bare_go {
         suffix.insert(0, format!("go depth {}", 1 + s.below(if mode == 2 { 4 } else { 3 })));
     }
@@ -311,6 +336,9 @@ fn part_newgame(bytes: &[u8], stats: &mut Stats) -> Verdict {
     }
     if mode == 2 {
         stats.class("old_game_repeats_positions_next_to_the_start_position");
+    }
+    if shuffle_again {
+        stats.class("new_game_is_the_old_shuffle_game_again");
     }
     if bare_go {
         stats.class("go_right_after_ucinewgame_without_position");
